@@ -316,11 +316,14 @@ def check_history(chk, ctx, base, scheds, tag, ref=None):
     for si, (sname, sfun) in enumerate(scheds):
         lines = apply_sched(base, sfun)
         wd = os.path.join(root, "%s-%s" % (tag, sname.replace(":", "_")))
-        r = run_variant(drv, lines, wd, "scenario")
+        if ctx.get("hang"):
+            break           # every further run would wait for its timeout as well
+        r = run_variant(drv, lines, wd, "scenario", timeout=30)
         r["sname"] = sname
         runs.append(r)
         if r["rc"] != 0:
             key = "engine-hang" if r["rc"] == -9 else "engine-crash"
+            ctx["hang"] = ctx.get("hang") or r["rc"] == -9
             chk.violation(key, "the engine driver %s on a generated history under schedule %s" % ("did not return (timeout)" if r["rc"] == -9 else "crashed (rc=%s)" % r["rc"], sname),
                           dict(scenario=lines, schedule=sname, stderr=r["err"][-1500:]), found_input=True, broken="c06 oracle (build returns) on implementation")
             continue
@@ -405,7 +408,10 @@ def stress(chk, ctx, drv, variant, scen_list, timeout, env=None):
         builds = real_builds(r["out"])
         n_builds += len(builds)
         chk.count(("stress", variant, name), n=max(1, len(builds)))
+        if ctx.get("hang") and variant != "tsan":
+            break
         if r["rc"] == -9:
+            ctx["hang"] = True
             chk.violation("engine-hang", "build() did not return within %ds in a racing-thread scenario (%s, %s build): lost wake-up or deadlock; %d builds had finished" % (timeout, name, variant, len([b for b in builds if b["result"]])),
                           dict(scenario=lines, variant=variant, builds_finished=len([b for b in builds if b["result"]])), found_input=True,
                           broken="c06 oracle (build returns) on implementation")
@@ -536,6 +542,8 @@ def run(chk):
         scheds += [("mixed:%d" % s, (lambda s: lambda i: "mixed:%d" % (s + i))(s)) for s in seeds[4:4 + chk.n(1, 2)]]
         scheds += [("threads:%d" % s, (lambda s: lambda i: "threads:%d" % (s + i))(s)) for s in seeds[6:6 + chk.n(1, 2)]]
         runs, orders, _ = check_history(chk, ctx, base, scheds, "g%d" % h)
+        if ctx.get("hang"):
+            break
         if h == 0 and runs and runs[-1]["rc"] == 0:
             chk.sample(dict(kind="history under schedule %s" % runs[-1]["sname"], scenario=runs[-1]["lines"], trace_head=runs[-1]["out"][:25]))
     t_gen = time.time() - t0
@@ -568,6 +576,8 @@ def run(chk):
             stale = 0 if new else stale + len(batch)
             if chk.violations:
                 break
+        if ctx.get("hang"):
+            break
         small_stats.append(dict(schedules=tried, orders_per_build={k: len(v) for k, v in seen.items()}))
         if h == 0:
             chk.sample(dict(kind="small graph, completion orders seen per build", scenario=base, orders={k: sorted(v)[:6] for k, v in seen.items()}))
@@ -579,7 +589,7 @@ def run(chk):
     scen_ref = []
     for name, lines in scen:
         sync_lines = None
-        if not name.startswith("cancel"):
+        if not name.startswith("cancel") and not ctx.get("hang"):
             r = run_variant(drv, apply_sched(lines, lambda i: None), os.path.join(root, "stress-ref-" + name), "scenario")
             sync_lines = r["out"] if r["rc"] == 0 else None
         scen_ref.append((name, lines, sync_lines))
